@@ -123,6 +123,16 @@ def exec_for(V, s, st):
         it = it.items
     if isinstance(it, MU):
         it = V.check_bound(st, it, s)
+    from . import paths
+    if isinstance(it, paths.MPathParents):
+        # Path.parents: some sequence of proper ancestors (assumed pathlib contract)
+        from .types import PATH
+        f = V.uf('path.parents_seq', [z3.StringSort()], z3.SeqSort(z3.StringSort()))
+        seqz = f(it.p.z)
+        qi = z3.Int(fresh_name('pi'))
+        st.assume(z3.ForAll([qi], z3.Implies(z3.And(qi >= 0, qi < z3.Length(seqz)),
+                                             paths.is_proper_ancestor(seqz[qi], it.p.z))))
+        it = SV(SeqT(PATH), seqz)
     if isinstance(it, SV) and isinstance(it.t, OptT):
         from .types import opt_is_none
         from .values import strip_opt
